@@ -99,6 +99,33 @@ func (e *Env) verifyLemma(lm *Lemma) (res *FuncResult) {
 					next = append(next, splitCase{fmt.Sprintf("%s[exp(%s)=%d]", c.label, f[1], k), mkAnd(c.cond, mkEq(ex, bvInt(8, int64(k))))})
 				}
 			}
+		case len(f) >= 3 && f[len(f)-2] == "upto":
+			// split <expr> upto N : cases expr == 0 .. expr == N (expr evaluated in the entry state)
+			var n int
+			fmt.Sscanf(f[len(f)-1], "%d", &n)
+			src := strings.Join(f[:len(f)-2], " ")
+			ex, err := parseSpec(src)
+			if err != nil {
+				res.Fatal = fmt.Sprintf("%s:%d: split: %v", lm.File, lm.Line, err)
+				return res
+			}
+			sc := scope()
+			x := sc.eval(ex)
+			if sc.err != nil || x.v == nil || len(x.v.L) != 1 {
+				res.Fatal = fmt.Sprintf("%s:%d: split %s: %v", lm.File, lm.Line, src, sc.err)
+				return res
+			}
+			w, _, ok := isIntType(x.v.T)
+			if !ok {
+				res.Fatal = fmt.Sprintf("%s:%d: split %s: not an integer", lm.File, lm.Line, src)
+				return res
+			}
+			tm := ft.c.Define("splitv", x.v.L[0])
+			for _, c := range cases {
+				for k := 0; k <= n; k++ {
+					next = append(next, splitCase{fmt.Sprintf("%s[%s=%d]", c.label, src, k), mkAnd(c.cond, mkEq(tm, bvInt(w, int64(k))))})
+				}
+			}
 		default:
 			res.Fatal = fmt.Sprintf("%s:%d: malformed split %q", lm.File, lm.Line, sp)
 			return res
